@@ -1,8 +1,62 @@
 import HapVerif.Model.C15
-import HapVerif.Drv.Common
+import HapVerif.Drv.C03
+/-!
+Driver of C15.  `C15 world <ops...> => <sni>=<crt>,...` and `C15 hist <ops with sync> => <sni>=<disk>|<running>,...`;
+`<crt>` = `default` | `ns/name@version` | `-` (no such file / not loaded) | `?hash` (unknown content).
+The model of a history is the full sync of its final cluster state.
+-/
 namespace HapVerif.C15
-open HapVerif.Drv
+open HapVerif.Drv HapVerif.Sync HapVerif.Sync.Parse
+open HapVerif.C04 (Str)
 
-def handle (_args : List String) (_impl : String) : Verdict := bad "C15-not-implemented"
+def showCrt : Crt → String
+  | .dflt => "default"
+  | .secret ns n v => String.ofList ns ++ "/" ++ String.ofList n ++ "@" ++ toString v
+
+def parseCrt (s : Str) : Option Crt :=
+  if s = "default".toList then some .dflt else
+  match split1 '@' s with
+  | (k, some v) =>
+    if isDigits v then (let (ns, n) := splitKey k; some (.secret ns n (atoi v))) else none
+  | _ => none
+
+/-- `sni=disk` or `sni=disk|running`; a certificate text that is not understood is kept as `none` -/
+def parseItem (s : Str) : Option (Str × Option Crt × Option (Option Crt)) :=
+  match split1 '=' s with
+  | (sni, some rhs) =>
+    match split1 '|' rhs with
+    | (d, none) => some (sni, parseCrt d, none)
+    | (d, some r) => some (sni, parseCrt d, some (parseCrt r))
+  | _ => none
+
+def handleCase (toks : List String) (impl : String) : Verdict :=
+  match worldOf toks with
+  | none => bad "parse-ops"
+  | some w =>
+    match C03.parseItems parseItem impl with
+    | none => bad "parse-impl"
+    | some items =>
+      let c := fullSync w
+      let l := crtList c
+      let model := items.map fun (sni, _, _) => (sni, sniCrt l sni)
+      let agree := (items.zip model).all fun ((_, d, _), (_, m)) => d = some m
+      let oracle := items.findSome? fun (sni, d, r) =>
+        match d with
+        | none => some "certificate-file-missing-or-unknown"
+        | some got =>
+          match checkSni w sni got with
+          | some sig => some sig
+          | none =>
+            match r with
+            | none => none
+            | some run => if run = some got then none else some "running-certificate-differs-from-disk"
+      { model := ",".intercalate (model.map fun (sni, m) => String.ofList sni ++ "=" ++ showCrt m),
+        agree := agree, oracle := oracle, trivial := c.tls.isEmpty }
+
+def handle (args : List String) (impl : String) : Verdict :=
+  match args with
+  | "world" :: toks => if impl = "PANIC" then { model := "-", agree := false, oracle := some "panic" } else handleCase toks impl
+  | "hist" :: toks => if impl = "PANIC" then { model := "-", agree := false, oracle := some "panic" } else handleCase toks impl
+  | _ => bad "C15"
 
 end HapVerif.C15
